@@ -96,9 +96,13 @@ class Ctx:
                 label, pattern, want = spec
                 mon = GateMonitor(accept_pts, pattern, want, (), accept_edge=accept_edge, kill_fn=kills_for)
             mon.label = label
+            renames_before = dict(getattr(fn, "_renames", {}))
             s = Search(fn, mon)
             v = s.run(0)
             if v is not None:
+                # bindings of vanished names that were committed *during* the failed search may be wrong guesses
+                # (the first structurally matching condition wins): drop them and resolve the name angelically
+                fn._renames = dict(renames_before)
                 # renamed-local tolerance for bare-name predicates: a variable the tables name no
                 # longer exists; accept if *some* other local plays its role in this gate
                 from pat import pattern_names, M as _M
